@@ -143,6 +143,23 @@ def flag_params(I, ps):
     ps["flag_name"].value = PV(I.new_array("flag_name", "char", None, cstr=True, content=None), 0)
 
 
+def flag_append(I, args):
+    """net_if_flags: a flag name is reported only on a path where the kernel's flag word has the bit of the header constant of
+    the same name (IFF_<NAME>; the constants stay symbolic, so testing another flag's constant does not discharge this)"""
+    lit = getattr(args[1].obj, "lit", None)
+    if lit is None:
+        return [("the flag name handed to append_flag is a string literal", False)]
+    name = lit.rstrip(b"\0").decode()
+    c = I.enum_by_name.get("IFF_" + name.upper())
+    flags = [cell for sc in I.env for cell in sc.values() if getattr(cell, "name", "") == "flags"]
+    if c is None or not flags:
+        return [(f"'{name}' is reported under a test of IFF_{name.upper()}", False)]
+    fv = flags[-1].get(I) if hasattr(flags[-1], "get") else flags[-1].value
+    w = max(fv.bits, c.value.bits)
+    ext = lambda v: Z.SignExt(w - v.bits, v.t) if v.bits < w else v.t  # noqa: E731
+    return [(f"'{name}' is reported only if (flags & IFF_{name.upper()}) != 0", (ext(fv) & ext(c.value)) != 0)]
+
+
 def post_speed(I, x):
     if x.null or "items" not in x.ret.obj.info:
         return []
@@ -239,7 +256,7 @@ C_CONTRACTS = [
                   note="getifaddrs() list walk: tuple slots per node; ownership on every error path (psutil_convert_ipaddr "
                        "applied through its own contract: NULL+exception / None / new object)"),
     cvc.CContract("C17", "psutil/_psutil_posix.c", "append_flag", filt="flag", params=flag_params),
-    cvc.CContract("C17", "psutil/_psutil_posix.c", "psutil_net_if_flags", filt="flag", merge=True,
+    cvc.CContract("C17", "psutil/_psutil_posix.c", "psutil_net_if_flags", filt="flag", merge=True, checks={"append_flag": flag_append},
                   note="20 independent `if (flags & X) append_flag(...)` steps: path merging where the step leaves the state "
                        "unchanged (55 paths instead of 3^20)"),
     cvc.CContract("C17", "psutil/_psutil_posix.c", "psutil_net_if_mtu", note="PSUTIL_STRNCPY stays inside ifr_name[16]"),
@@ -283,7 +300,38 @@ def table_entry_points():
     return out
 
 
-TABLES = [table_entry_points]
+LINUX_IFF = ["up", "broadcast", "debug", "loopback", "pointopoint", "notrailers", "running", "noarp", "promisc", "allmulti",
+             "master", "slave", "multicast", "portsel", "automedia", "dynamic"]       # glibc sysdeps/gnu/net/if.h
+
+
+def table_net_if_flags():
+    """completeness side of the net_if_flags contract (the proof obligation is "reported => bit set"): every flag glibc's
+    <net/if.h> defines has its own `#ifdef IFF_X` step in psutil_net_if_flags, and each step tests and reports the same X"""
+    import os
+    import re
+    repo = os.environ.get("VERIF_REPO", "/repo")
+    src = open(os.path.join(repo, "psutil/_psutil_posix.c")).read()
+    i = src.index("psutil_net_if_flags(PyObject")
+    body = src[i:src.index("\n}\n", i)]
+    steps = re.findall(r"#ifdef\s+IFF_(\w+)(.*?)#endif", body, re.S)
+    out = [("psutil_net_if_flags has one #ifdef step per flag", len(steps) >= len(LINUX_IFF), f"{len(steps)} steps")]
+    seen = {}
+    for macro, blk in steps:
+        code = re.sub(r"//[^\n]*", "", blk)
+        tests = re.findall(r"flags\s*&\s*IFF_(\w+)", code)
+        names = re.findall(r'append_flag\(\s*py_retlist\s*,\s*"(\w+)"', code)
+        ok = tests == [macro] and names == [macro.lower()]
+        out.append((f"step IFF_{macro} tests IFF_{macro} and reports '{macro.lower()}'", ok, f"tests {tests}, reports {names}"))
+        seen[macro.lower()] = seen.get(macro.lower(), 0) + 1
+    for nme in LINUX_IFF:
+        out.append((f"flag '{nme}' has exactly one step", seen.get(nme) == 1, f"{seen.get(nme, 0)} steps"))
+    m = re.search(r"flags\s*=\s*([^;]+);", body)
+    out.append(("the tested word is the kernel's ifr_flags (16 bits)", bool(m) and re.sub(r"\s", "", m.group(1)) in
+                ("ifr.ifr_flags&0xFFFF", "ifr.ifr_flags", "(unsignedshort)ifr.ifr_flags"), m.group(1) if m else "not found"))
+    return out
+
+
+TABLES = [table_entry_points, table_net_if_flags]
 
 
 # =================================================================================================================
